@@ -236,8 +236,8 @@ func (e *Engine) VerifyFunction(fn *ssa.Function, opts VerifyOpts) (u *Unit) {
 	}
 	x.entry = st.Clone()
 	x.bindParams()
-	pkg := fn.Pkg
-	_ = pkg
+	pkPath, _ := fnKey(fn)
+	e.assumeAxioms(u, x, pkPath)
 	// frame
 	if fc != nil && !opts.SafetyOnly {
 		x.frame = x.frameFromContract(fc, fn, x.params, e.typesPkgFor(fc.Pkg), x.entry)
@@ -363,4 +363,63 @@ func writeQuery(dir, name, q string) string {
 	f := filepath.Join(dir, name+".smt2")
 	os.WriteFile(f, []byte(q), 0o644)
 	return f
+}
+
+// assumeAxioms asserts the axioms of the prelude and of the given package in unit u.
+func (e *Engine) assumeAxioms(u *Unit, x *Exec, pkgPath string) {
+	for _, l := range e.cs.Lemmas {
+		if !l.Axiom || (l.Pkg != "" && l.Pkg != pkgPath) {
+			continue
+		}
+		env := &SpecEnv{u: u, x: x, pkg: e.typesPkgFor(l.Pkg), vars: map[string]SVal{}, bound: map[string]SVal{}, cur: x.entry, old: x.entry, reach: TTrue}
+		if env.pkg == nil {
+			env.pkg = e.typesPkgFor(pkgPath)
+		}
+		g, err := env.EvalBool(l.Expr)
+		if err != nil {
+			u.Errorf("axiom %s: %v", l.Name, err)
+			continue
+		}
+		u.AssumeRaw(g)
+		u.usedAssumed["axiom "+l.Name+": "+l.Text] = true
+	}
+}
+
+// VerifyLemmas proves the lemmas of a package from its axioms alone.
+func (e *Engine) VerifyLemmas(pkgPath string, names []string) *Unit {
+	u := &Unit{Name: "lemmas " + pkgPath, W: NewWorld(), eng: e, nameCnt: map[string]int{}, usedAssumed: map[string]bool{}, usedPureUF: map[string]bool{},
+		havocCalls: map[string]bool{}, inlined: map[string]bool{}, lockKeys: map[string]bool{}}
+	st := &State{cells: map[interface{}]Value{}, heaps: map[string]Term{}, gen: &Gen{kind: "init"}, u: u}
+	st.alloc = u.W.Const("alloc@0", SInt)
+	x := &Exec{u: u, regs: map[ssa.Value]Value{}, cellable: map[*ssa.Alloc]bool{}, freshBases: map[string]bool{}, prefix: u.Name, entry: st, alloc0: st.alloc}
+	x.curBlockReach = TTrue
+	e.assumeAxioms(u, x, pkgPath)
+	want := map[string]bool{}
+	for _, n := range names {
+		want[n] = true
+	}
+	for _, l := range e.cs.Lemmas {
+		if l.Axiom || l.Pkg != pkgPath || (len(want) > 0 && !want[l.Name]) {
+			continue
+		}
+		env := &SpecEnv{u: u, x: x, pkg: e.typesPkgFor(pkgPath), vars: map[string]SVal{}, bound: map[string]SVal{}, cur: st, old: st, reach: TTrue}
+		g, err := env.EvalBool(l.Expr)
+		if err != nil {
+			u.Errorf("lemma %s: %v", l.Name, err)
+			continue
+		}
+		delete(want, l.Name)
+		u.AddObl(fmt.Sprintf("lemma %s / %s", shortPkg(pkgPath), l.Name), "lemma", l.Text, TTrue, g, token.Position{Filename: l.File, Line: l.Line}, u.Name)
+	}
+	for n := range want {
+		u.Errorf("lemma %s not found in %s", n, pkgPath)
+	}
+	return u
+}
+
+func shortPkg(p string) string {
+	if i := strings.LastIndex(p, "/"); i >= 0 {
+		return p[i+1:]
+	}
+	return p
 }
